@@ -97,6 +97,13 @@ def step (st : Unit) (j : Json) : Unit × Json :=
           ("pad", Json.arr #[natJ g.padUsedR, natJ g.padUsedC]),
           ("shape", Json.arr #[natJ g.H, natJ g.W]),
           ("positions", Json.arr ((scanPositions g).map fun p => Json.arr #[ratToJson p.1, ratToJson p.2]).toArray)]))
+    | "positions_general" =>
+        let gr ← natField j "gr"
+        let gc ← natField j "gc"
+        let tp ← boolField j "transpose"
+        let ps : List (Float × Float) := scanPositionsGeneral gr gc (← fl j "stepR") (← fl j "stepC") (← fl j "sampR") (← fl j "sampC")
+          (← fl j "padR") (← fl j "padC") (← fl j "angle") tp
+        pure (okJson (Json.arr (ps.map pairF).toArray))
     | "indices" =>
         let pos ← positionsOfJson (← field j "positions")
         let R0 ← natField j "R0"
